@@ -635,6 +635,85 @@ func (c *c11Env) slashUndelCase(native bool, fracs []sdkmath.LegacyDec, powers [
 	c.w.Count(fmt.Sprintf("slashundel.slashes=%d", len(props)))
 }
 
+// ---- operator commission: registration through the real message path, then a distribution epoch end ---------------
+
+func (c *c11Env) commissionCase(rate, maxRate, maxChange sdkmath.LegacyDec, tags []string) {
+	app := c.env.App
+	cx := mustCache(c.env.Ctx)
+	chainID := avstypes.ChainIDWithoutRevision(c.env.ChainID)
+	avsAddr := avstypes.GenerateAVSAddr(chainID)
+	_, a := DetEthKey("c11comm", c.n)
+	op := sdk.AccAddress(a.Bytes())
+	ms := operatorkeeper.NewMsgServerImpl(app.OperatorKeeper)
+	msg := &operatortypes.RegisterOperatorReq{FromAddress: op.String(), Info: &operatortypes.OperatorInfo{
+		EarningsAddr: op.String(), ApproveAddr: op.String(), OperatorMetaInfo: "c11",
+		Commission: stakingtypes.Commission{CommissionRates: stakingtypes.CommissionRates{Rate: rate, MaxRate: maxRate, MaxChangeRate: maxChange}}}}
+	// baseapp: ValidateBasic of every message, then the message server
+	reg := c11Class(func() error {
+		if err := msg.ValidateBasic(); err != nil {
+			return err
+		}
+		_, err := ms.RegisterOperator(sdk.WrapSDKContext(cx), msg)
+		return err
+	})
+	accepted := reg == "ROk"
+	obs := "ROk"
+	steps := []string{"MsgRegisterOperator=" + reg}
+	if accepted {
+		asset := common.HexToAddress(c.env.AssetAddr).Bytes()
+		amt := sdkmath.NewInt(200_000_000)
+		_, key := DetConsKey("c11commcons", c.n)
+		setup := c11Class(func() error {
+			if err := app.DelegationKeeper.AssociateOperatorWithStaker(cx, 101, op, op.Bytes()); err != nil {
+				return err
+			}
+			if err := app.AssetsKeeper.PerformDepositOrWithdraw(cx, &assetskeeper.DepositWithdrawParams{ClientChainLzID: 101, Action: assetstypes.DepositLST, AssetsAddress: asset, StakerAddress: op.Bytes(), OpAmount: amt}); err != nil {
+				return err
+			}
+			if err := app.DelegationKeeper.DelegateTo(cx, &delegationtypes.DelegationOrUndelegationParams{ClientChainID: 101, AssetsAddress: asset, StakerAddress: op.Bytes(), OperatorAddress: op, OpAmount: amt,
+				LzNonce: 400000 + uint64(c.n), TxHash: common.BytesToHash(seedBytes("c11cm", c.n))}); err != nil {
+				return err
+			}
+			return app.OperatorKeeper.OptInWithConsKey(cx, op, avsAddr, key)
+		})
+		steps = append(steps, "associate+deposit+delegate+optin="+setup)
+		// block A: the dogfood epoch ends, the operator becomes a validator; block B: the next epoch ends with fees
+		id := app.StakingKeeper.GetEpochIdentifier(cx)
+		bx := cx
+		for blk := 0; blk < 2 && obs == "ROk"; blk++ {
+			ei, _ := app.EpochsKeeper.GetEpochInfo(bx, id)
+			hd := bx.BlockHeader()
+			hd.Height++
+			hd.Time = ei.CurrentEpochStartTime.Add(ei.Duration + time.Second)
+			if !hd.Time.After(bx.BlockTime()) {
+				hd.Time = bx.BlockTime().Add(ei.Duration + time.Second)
+			}
+			bx = bx.WithBlockHeader(hd)
+			if blk == 1 {
+				coins := sdk.NewCoins(sdk.NewCoin(utils.BaseDenom, sdkmath.NewInt(1_000_000)))
+				c11Must(app.BankKeeper.MintCoins(bx, exominttypes.ModuleName, coins), "mint")
+				c11Must(app.BankKeeper.SendCoinsFromModuleToModule(bx, exominttypes.ModuleName, authtypes.FeeCollectorName, coins), "fees")
+			}
+			obs = c11Class(func() error {
+				app.EpochsKeeper.BeginBlocker(bx)
+				app.StakingKeeper.BeginBlock(bx)
+				app.StakingKeeper.EndBlock(bx)
+				return nil
+			})
+		}
+		isVal := false
+		if found, wk, err := app.OperatorKeeper.GetOperatorConsKeyForChainID(bx, op, chainID); err == nil && found && wk != nil {
+			_, isVal = app.StakingKeeper.GetExocoreValidator(bx, wk.ToConsAddr())
+		}
+		steps = append(steps, fmt.Sprintf("validator=%v", isVal))
+		c.w.Count(fmt.Sprintf("commission.validator=%v", isVal))
+	}
+	z := func(d sdkmath.LegacyDec) string { return cZbig(d.BigInt()) }
+	c.emit(cApp("PCommission", z(rate), z(maxRate), z(maxChange), cBool(accepted)), obs, true,
+		map[string]interface{}{"kind": "operator-commission", "rate": rate.String(), "max_rate": maxRate.String(), "max_change_rate": maxChange.String(), "accepted": accepted, "steps": steps}, tags)
+	c.w.Count("kind=commission")
+}
+
 // ---- the validator set at a dogfood epoch end ------------------------------------------------------------------------
 
 // route: 0 = every operator sends MsgOptOutOfAVS, 1 = every operator's own staker undelegates below the minimum self
@@ -1108,6 +1187,14 @@ func runC11(a *Args) error {
 	seeds := c.txBytes()
 	c.abciCase(seeds, nil)
 
+	// (5b) boundary commissions through MsgRegisterOperator, then validator + distribution epoch end with fees
+	{
+		d := func(s string) sdkmath.LegacyDec { return sdkmath.LegacyMustNewDecFromStr(s) }
+		for _, t := range [][3]string{{"0", "0", "0"}, {"0", "1", "1"}, {"1", "1", "0"}, {"0.5", "1", "0.1"}, {"1.000000000000000001", "1.000000000000000001", "0"},
+			{"2", "2", "0"}, {"0.6", "0.5", "0"}, {"-0.1", "1", "0"}, {"0.1", "-1", "0"}, {"0.1", "1", "-0.1"}, {"0.1", "0.5", "0.6"}, {"1", "2", "0"}} {
+			c.commissionCase(d(t[0]), d(t[1]), d(t[2]), nil)
+		}
+	}
 	// (6) the validator set at the dogfood epoch end: the three routes that empty it (known finding) and the same routes
 	//     with one operator left alone (accepted)
 	for route := 0; route < 3; route++ {
@@ -1163,8 +1250,12 @@ func runC11(a *Args) error {
 				pw[i] = int64(1 + rng.Intn(4))
 			}
 			c.slashUndelCase(rng.Intn(2) == 0, fr, pw, nil)
-		case k < 84:
+		case k < 83:
 			c.delegEndCase(nil)
+		case k < 84:
+			pool := []string{"0", "0.000000000000000001", "0.5", "1", "1.000000000000000001", "2", "-1", "0.999999999999999999"}
+			d := func(s string) sdkmath.LegacyDec { return sdkmath.LegacyMustNewDecFromStr(s) }
+			c.commissionCase(d(pool[rng.Intn(len(pool))]), d(pool[rng.Intn(len(pool))]), d(pool[rng.Intn(len(pool))]), nil)
 		case k < 85:
 			c.priceStringCase([]string{"", "x", "0", "-1", "7", "1e5", " 5"}[rng.Intn(7)], rng.Intn(4) == 0, nil)
 		case k < 86:
